@@ -545,22 +545,32 @@ theorem accumulateElem_eq_reads {α : Type} (op : α → α → α) (a : Arr α)
     accumulateElem op a axis d =
       (accumulateReads a.shape axis d).bind (fun r => foldFirst op none (r.map a.get)) := by
   simp only [accumulateElem, accumulateReads]
-  cases accumulateSlices axis d 0 a.shape with
+  cases accumulateSlices (accumulateAxis a.shape.length axis) d 0 a.shape with
   | none => rfl
   | some sl =>
     have hf : slicedFlatElem a sl = fun x => a.get (sliceIndex sl (ndindex (sliceShape sl) x)) := rfl
     simp [reducer_eq_foldFirst, slicedReads, hf, List.map_map, Function.comp_def]
 
-theorem accumulateReads_eq (s : Shape) (ax : Nat) (hax : ax < s.length) (d : Idx) (hd : d.length = s.length) :
-    accumulateReads s (ax : Int) d = accumAddressed ax d := by
-  obtain ⟨sl, m, h1, h2, h3, h4⟩ := accL_at ax s 0 ax d (by omega) hax hd
-  simp [accumulateReads, accumulateSlices_eq, h1, slicedReads_eq_box sl h2, h4, accumAddressed, h3]
+/-- the code's normalisation of the accumulate axis agrees with NumPy's on every accepted axis -/
+theorem accumulateAxis_of_valid {n : Nat} {a : Int} (h : ValidAxis n a) :
+    accumulateAxis n a = ((normAxis n a : Nat) : Int) := by
+  have h1 := normalizeAxis_of_valid h
+  unfold ValidAxis at h
+  unfold normalizeAxis at h1
+  rw [if_pos h, Option.some.injEq] at h1
+  rw [← h1]
+  unfold accumulateAxis
+  by_cases ha : a < 0
+  · rw [if_pos ha, if_pos ha]; omega
+  · rw [if_neg ha, if_neg ha]; omega
 
-theorem accumulateReads_neg (s : Shape) (axis : Int) (hneg : axis < 0) (d : Idx) (hd : d.length = s.length) :
-    accumulateReads s axis d = some [d] := by
-  obtain ⟨sl, h1, h2, h3⟩ := accL_past axis s 0 d (by omega) hd
-  simp [accumulateReads, accumulateSlices_eq, h1, slicedReads_eq_box sl h2, h3]
-
+theorem accumulateReads_eq (s : Shape) (axis : Int) (hv : ValidAxis s.length axis) (d : Idx)
+    (hd : d.length = s.length) :
+    accumulateReads s axis d = accumAddressed (normAxis s.length axis) d := by
+  obtain ⟨sl, m, h1, h2, h3, h4⟩ :=
+    accL_at (normAxis s.length axis) s 0 (normAxis s.length axis) d (by omega) (normAxis_lt hv) hd
+  simp [accumulateReads, accumulateAxis_of_valid hv, accumulateSlices_eq, h1, slicedReads_eq_box sl h2, h4,
+    accumAddressed, h3]
 
 theorem reduceReads_ne_nil (s : Shape) (hs : Pos s) (axis : AxisArg) (keep : Bool)
     (hv : ValidAxes s.length axis) (j : Idx) (hj : InShape j (specShape s (axisSet s.length axis) keep)) :
